@@ -474,5 +474,8 @@ pub fn run(ctx: &Ctx) -> &'static str {
         built_strategy,
         |_| check_built,
     );
+    if ctx.tier == crate::rt::Tier::Thorough {
+        crate::fuzzrun::campaign(ctx, "c15_codec", 300);
+    }
     "exploration"
 }
